@@ -142,6 +142,10 @@ class Client:
         """Widening hook applied to states flowing back to a loop head."""
         return [state]
 
+    def loop_leave(self, st, state) -> Iterable[Any]:
+        """Applied to every state that leaves a loop normally (test false, exhausted, break)."""
+        return [state]
+
     def handler_bind(self, h: ast.ExceptHandler, state, exc: str) -> Iterable[Any]:
         return [state]
 
@@ -285,12 +289,16 @@ class Flow:
                 out.exc |= o.exc
                 for sb in o.fall | o.cont:
                     head |= set(c.back_edge(st, sb))
-                out.fall |= o.brk
+                for sb in o.brk:
+                    out.fall |= set(c.loop_leave(st, sb))
+            left = set()
+            for sb in exit_false:
+                left |= set(c.loop_leave(st, sb))
             if st.orelse:
-                o = self._block(st.orelse, exit_false)
+                o = self._block(st.orelse, left)
                 out.absorb(o, fall=True)
             else:
-                out.fall |= exit_false
+                out.fall |= left
             return out
         if isinstance(st, ast.For):
             pre: Set[Any] = set()
@@ -320,12 +328,16 @@ class Flow:
                 out.exc |= o.exc
                 for sb in o.fall | o.cont:
                     head |= set(c.back_edge(st, sb))
-                out.fall |= o.brk
+                for sb in o.brk:
+                    out.fall |= set(c.loop_leave(st, sb))
+            left = set()
+            for sb in exhausted:
+                left |= set(c.loop_leave(st, sb))
             if st.orelse:
-                o = self._block(st.orelse, exhausted)
+                o = self._block(st.orelse, left)
                 out.absorb(o, fall=True)
             else:
-                out.fall |= exhausted
+                out.fall |= left
             return out
         if isinstance(st, ast.Try):
             return self._try(st, states)
